@@ -13,6 +13,7 @@ func init() {
 }
 
 func rulesC13(c *Ctx) {
+	c.Import("R-C13-8", "keep-alive's classification of a ping failure (unsupported → stop silently; rejected → a miss, not a broken writer) searches the error chain: errors.Is is asked with the sentinel as target", "C02", "R-C02-13", nil)
 	sk := c.Fn(pM, "", "startKeepalive")
 	// role anchor: the go literal that pings the session
 	ticker := c.Std("time", "", "NewTicker")
